@@ -24,7 +24,20 @@ RULE = ('signatures with 0-3 parameters (annotated from a pool of 27 annotations
         'derives from a class decorated before with pedantic_class / pedantic_class_require_docstring / trace_class / timer_class / '
         'for_all_methods(pedantic), directly or one level up (also an undecorated base, no base), and defines a new method / an override / __init__ / a '
         'coroutine with the consistent docstring, every single edit of it or none; the finite grid trigger x raw docstring kind x number of documented '
-        'parameters is enumerated.  Each case is a real .py module imported from a temp dir; outcome = exception class raised '
+        'parameters is enumerated.  EVERY FUNCTION A CLASS HOLDS: for each of the 7 non-empty subsets of {getter, setter, deleter} of a property x '
+        'the way it is written (`@property` / `@x.setter` / `@x.deleter`, the chain starting at `x = property()` when there is no getter; '
+        '`x = property(fget=…, …)` of functions deleted from the class body afterwards; the same without the `del`) x each accessor of the subset: '
+        'that accessor with the consistent docstring, every single edit of it, no / an empty / a summary-only docstring, the others consistent, '
+        'under pedantic_class_require_docstring and pedantic_class, alone or next to a consistent method; likewise static methods, class methods and '
+        'methods (3 signatures) next to a full property; outcome for a class = exception class, or whether ALL / SOME / NONE of the functions it '
+        'holds came back as wrappers.  THE SAME `def` EXECUTED AGAIN: an inner function of a factory, the body of a loop, a class defined in a '
+        'factory, a reloaded module (equal code objects) whose annotation in a parameter or the return is a variable, executed 2-3 times with the '
+        'value the docstring documents (A), an equal spelling (E), another type (B) in the orders AB BA AE AAB ABA EA AA, every function '
+        'decorator.  HOW THE DECORATOR IS APPLIED: `@decorator` syntax or a call after the definition (`C = pedantic_class_require_docstring(C)`, '
+        '`f = pedantic(f)`; the module is registered in sys.modules while it runs, so the class can be found under its qualified name) — every '
+        'second class of the hierarchies, every fourth seeded signature, and enumerated: an overriding method (`keep`, `__init__`) with no / an '
+        'empty / the consistent docstring under each of the 7 bases (whose method of that name is documented consistently with the same '
+        'signature) x both class decorators x both forms.  Each case is a real .py module imported from a temp dir; outcome = exception class raised '
         'by the import (or none) and whether a wrapper was returned.  non-trivial = docstring checking applies')
 EXHAUSTIVE = {'quick': False, 'thorough': False}
 ASSUMPTIONS = [
@@ -35,6 +48,8 @@ ASSUMPTIONS = [
     '("documents exactly the annotated parameters") `args (T)` documents the variadic parameter and `*args (T)` — the spelling the Google style guide uses — '
     'names no parameter: specification, model and library agree on this (the library rejects `*args (T)`); whether the starred spelling should be '
     'admitted for real variadic parameters is a design question for the integrator, not decided here',
+    'the functions of a class are those `cls.__dict__` holds as plain functions, static methods, class methods and as the accessors of '
+    '`property` objects (other descriptors — functools.cached_property, custom ones — are not looked at by the library and not generated)',
     'documented types use only identifiers the model knows (builtin classes, the typing names of the fragment, the module\'s '
     'own names My/Other/T, undefined names); the generator checks this for every case',
 ]
@@ -57,9 +72,16 @@ T = typing.TypeVar('T')
 NSMOD = {k: getattr(typing, k) for k in typing.__all__}
 NSMOD.update({'My': My, 'Other': Other, 'T': T})
 NS_JSON = [['My', ['cls', 'My']], ['Other', ['cls', 'Other']], ['T', ['tvar', 'T']]]
+# names a module may bind to such objects under ANOTHER identifier than their `__name__`: type aliases (of a class, of generics), a type
+# variable bound under another identifier.  Only the modules of the alias family define them (ALIAS_SRC); evaluating every documented
+# text in the larger namespace is harmless, because no other family ever writes these identifiers.
+ALIAS_SRC = ('Alias = My\nIntList = List[int]\nStrList = List[str]\nTable = Dict[str, Optional[My]]\nU = TypeVar("T2")\nWrong = Other\n')
+ALIASES = {'Alias': My, 'IntList': typing.List[int], 'StrList': typing.List[str], 'Table': typing.Dict[str, typing.Optional[My]],
+           'U': typing.TypeVar('T2'), 'Wrong': Other}
+NSMOD.update(ALIASES)
 KNOWN = {'int', 'str', 'float', 'bool', 'list', 'dict', 'tuple', 'set', 'bytes',
          'List', 'Dict', 'Tuple', 'Set', 'Type', 'Optional', 'Union', 'Callable', 'Literal', 'Any'}
-USER = {'My', 'Other', 'T', 'Foo', 'NoneType'}          # Foo is defined nowhere; NoneType only ever through the context
+USER = {'My', 'Other', 'T', 'Foo', 'NoneType'} | set(ALIASES)   # Foo is defined nowhere; NoneType only ever through the context
 HEADS = {list: 'List', dict: 'Dict', tuple: 'Tuple', set: 'Set', type: 'Type', typing.Literal: 'Literal'}
 
 
@@ -121,19 +143,62 @@ def to_expr(text):
     return go(tree)
 
 
+_TT, _MEANING, _ANN, _PARSED = {}, {}, {}, {}
+
+
+def ns_json(aliases):
+    """the globals of the generated module as far as a documented name can refer to them"""
+    if not aliases:
+        return NS_JSON
+    if 'v' not in _NS_ALIAS:
+        _NS_ALIAS['v'] = NS_JSON + [[k, to_val(v)] for k, v in ALIASES.items()]
+    return _NS_ALIAS['v']
+
+
+_NS_ALIAS = {}
+
+
 def tt(text):
-    return None if text is None else {'text': text, 'expr': to_expr(text)}
+    """(memoised: the results are shared between cases and never mutated)"""
+    if text is None:
+        return None
+    if text not in _TT:
+        _TT[text] = {'text': text, 'expr': to_expr(text)}
+    return _TT[text]
 
 
 def meaning(text):
     """what the text denotes in the module's namespace, by the real interpreter (None: nothing)"""
     if text is None:
         return None, None
-    try:
-        o = eval(text, dict(NSMOD))
-    except BaseException:
-        return None, None
-    return o, to_val(o)
+    if text not in _MEANING:
+        try:
+            o = eval(text, dict(NSMOD))
+            _MEANING[text] = (o, to_val(o))
+        except OutsideFragment:
+            raise
+        except BaseException:
+            _MEANING[text] = (None, None)
+    return _MEANING[text]
+
+
+def ann_obj(ann):
+    """the object an annotation of the signature evaluates to, and its abstraction"""
+    if ann not in _ANN:
+        o = eval(ann, dict(NSMOD))
+        _ANN[ann] = (o, to_val(o))
+    return _ANN[ann]
+
+
+def parsed_doc(doctext):
+    """what docstring_parser returns for func.__doc__, abstracted"""
+    if doctext not in _PARSED:
+        import docstring_parser
+        parsed = docstring_parser.parse(doctext)
+        _PARSED[doctext] = {'params': [[p.arg_name, tt(p.type_name)] for p in parsed.params],
+                            'returns': None if parsed.returns is None else
+                            [len(parsed.returns.args), tt(parsed.returns.args[1]) if len(parsed.returns.args) > 1 else None]}
+    return _PARSED[doctext]
 
 
 # ------------------------------------------------------------------------------------------------ generator
@@ -346,11 +411,13 @@ DECO_SRC = {'pedantic': '@pedantic', 'require': '@pedantic_require_docstring', '
 
 
 def render_fn(name, sig, doctext, indent, deco_line, selfarg):
-    ps = (['self'] if selfarg else []) + [nm if ann is None else f'{nm}: {ann}' for nm, ann in sig['params']]
+    """selfarg: falsy (no receiver) | True (`self`) | the name of the first parameter (`cls`); deco_line: one line or several"""
+    first = [] if not selfarg else ['self' if selfarg is True else selfarg]
+    ps = first + [nm if ann is None else f'{nm}: {ann}' for nm, ann in sig['params']]
     ret = '' if sig['ret'] is None else f" -> {sig['ret']}"
     lines = []
-    if deco_line:
-        lines.append(indent + deco_line)
+    for dl in (deco_line.split('\n') if deco_line else []):
+        lines.append(indent + dl)
     lines.append(f"{indent}{'async ' if sig.get('async') else ''}def {name}({', '.join(ps)}){ret}:")
     if doctext is not None:
         body = doctext.replace('\n    ', '\n' + indent + '    ') if indent else doctext
@@ -359,25 +426,21 @@ def render_fn(name, sig, doctext, indent, deco_line, selfarg):
     return '\n'.join(lines) + '\n'
 
 
-def abstract_unit(sig, idoc, doctext, deco):
+def abstract_unit(sig, idoc, doctext, deco, aliases=False):
     """the abstract case of one decorated function.  `doctext` is func.__doc__ (None: no docstring)."""
-    import docstring_parser
     anns = []
     ann_objs = {}
     for nm, ann in sig['params']:
         nm = base(nm)
         if ann is not None:
-            o = eval(ann, dict(NSMOD)); ann_objs[nm] = o
-            anns.append([nm, to_val(o)])
+            o, v = ann_obj(ann); ann_objs[nm] = o
+            anns.append([nm, v])
     if sig['ret'] is None: ret = ['absent']; ret_obj = None
     elif sig['ret'] == 'None': ret = ['none']; ret_obj = None
     else:
-        ret_obj = eval(sig['ret'], dict(NSMOD)); ret = ['val', to_val(ret_obj)]
+        ret_obj, v = ann_obj(sig['ret']); ret = ['val', v]
     raw = 'none' if doctext is None else ('empty' if doctext == '' else 'text')
-    parsed = docstring_parser.parse(doctext)
-    doc = {'params': [[p.arg_name, tt(p.type_name)] for p in parsed.params],
-           'returns': None if parsed.returns is None else
-           [len(parsed.returns.args), tt(parsed.returns.args[1]) if len(parsed.returns.args) > 1 else None]}
+    doc = parsed_doc(doctext)
     if isinstance(idoc, dict):
         ip, ir = idoc['params'], idoc['returns']
     else:
@@ -403,7 +466,7 @@ def abstract_unit(sig, idoc, doctext, deco):
             eqs.append([to_val(a), v, bool(a == o), bool(o == a)])
     else: den_ret = ['untyped']
     return {'req': deco != 'pedantic', 'deco': deco, 'sig': {'anns': anns, 'ret': ret, 'raw': raw}, 'doc': doc, 'intended': intended,
-            'den': {'params': den_params, 'returns': den_ret}, 'ns': NS_JSON, 'eqs': eqs}
+            'den': {'params': den_params, 'returns': den_ret}, 'ns': ns_json(aliases), 'eqs': eqs}
 
 
 BASE_DOC = ('        """ Summary.\n\n        Args:\n            {p} (int): text\n{r}        """\n')
@@ -423,11 +486,18 @@ BASES = {
 CLASS_DECO = {'class': '@pedantic_class_require_docstring', 'class_plain': '@pedantic_class'}
 
 
-def mk_case(deco, units, edit, enabled=True, titles=('Args', 'Returns'), in_domain=True, base=None):
+DECO_CALL = {'pedantic': 'pedantic({})', 'require': 'pedantic_require_docstring({})', 'require_kw': 'pedantic(require_docstring=True)({})',
+             'class': 'pedantic_class_require_docstring({})', 'class_plain': 'pedantic_class({})'}
+
+
+def mk_case(deco, units, edit, enabled=True, titles=('Args', 'Returns'), in_domain=True, base=None, apply='syntax', aliases=False):
     """units: list of (sig, idoc) — one for a function, one per method for the class paths (deco 'class': the class is decorated with
        pedantic_class_require_docstring, 'class_plain': with pedantic_class; a method is called sig['name'] or m<k>).
        idoc: None (no docstring) | str (literal docstring text without documented entries) | dict (intended docstring)
-       base: None | key of BASES — the class of the case derives from a class decorated earlier in the module"""
+       base: None | key of BASES — the class of the case derives from a class decorated earlier in the module
+       aliases: the module also defines the type aliases of ALIAS_SRC (and the case tells the model so: they are globals of the module)
+       apply: 'syntax' (`@decorator` in front of the definition) | 'call' (the function / class is defined first — it is bound in its
+       module, which run_impl registers in sys.modules like a real import does — and then replaced by `decorator(<it>)`)"""
     is_cls = deco in CLASS_DECO
     srcs, names = [], []
     for k, (sig, idoc) in enumerate(units):
@@ -436,12 +506,17 @@ def mk_case(deco, units, edit, enabled=True, titles=('Args', 'Returns'), in_doma
             names.append(sig.get('name') or f'm{k}')
             srcs.append(render_fn(names[-1], sig, doctext, '    ', None, True))
         else:
-            srcs.append(render_fn('f', sig, doctext, '', DECO_SRC[deco], False))
+            srcs.append(render_fn('f', sig, doctext, '', DECO_SRC[deco] if apply == 'syntax' else None, False))
     if is_cls:
         assert len(set(names)) == len(names)
-        src = HEAD_SRC + (BASES[base] if base else '') + CLASS_DECO[deco] + f"\nclass C{'(B)' if base else ''}:\n" + '\n'.join(srcs)
+        src = HEAD_SRC + (ALIAS_SRC if aliases else '') + (BASES[base] if base else '') + (CLASS_DECO[deco] + '\n' if apply == 'syntax' else '') \
+            + f"class C{'(B)' if base else ''}:\n" + '\n'.join(srcs)
+        if apply == 'call':
+            src += '\nC = ' + DECO_CALL[deco].format('C') + '\n'
     else:
-        src = HEAD_SRC + srcs[0]
+        src = HEAD_SRC + (ALIAS_SRC if aliases else '') + srcs[0]
+        if apply == 'call':
+            src += '\nf = ' + DECO_CALL[deco].format('f') + '\n'
     # func.__doc__ exactly as the compiler stores it (3.12: the raw constant)
     tree = ast.parse(src)
     if is_cls:
@@ -451,7 +526,7 @@ def mk_case(deco, units, edit, enabled=True, titles=('Args', 'Returns'), in_doma
         fns = [n for n in ast.walk(tree) if isinstance(n, (ast.FunctionDef, ast.AsyncFunctionDef))]
     assert len(fns) == len(units)
     udeco = {'class': 'class', 'class_plain': 'pedantic'}.get(deco, deco)       # what every method is decorated with
-    aus = [abstract_unit(sig, idoc, ast.get_docstring(fn, clean=False), udeco) for (sig, idoc), fn in zip(units, fns)]
+    aus = [abstract_unit(sig, idoc, ast.get_docstring(fn, clean=False), udeco, aliases) for (sig, idoc), fn in zip(units, fns)]
     c = {'env': {'enabled': enabled, 'parser': True}, 'kind': 'class' if is_cls else 'func', 'units': aus}
     x = {'src': src, 'deco': deco, 'edit': edit, 'in_domain': in_domain}
     if deco == 'class_plain':
@@ -460,7 +535,275 @@ def mk_case(deco, units, edit, enabled=True, titles=('Args', 'Returns'), in_doma
         x['probe'] = names[0]
     if base:
         x['base'] = base
+    if apply != 'syntax':
+        x['apply'] = apply
+    if aliases:
+        x['aliases'] = True
     return {'m': 'docstring', 'c': c, 'x': x}
+
+
+# ------------------------------------------------------------------------------------------------ names that are not `__name__`s
+
+# (annotation, [documented types that denote an equal type], [documented types that do not])
+ALIAS_PAIRS = [
+    ('Alias', ['Alias', 'My'], ['Wrong', 'Other', 'Foo', 'IntList']),
+    ('My', ['Alias'], ['Wrong']),
+    ('IntList', ['IntList', 'List[int]'], ['StrList', 'list[int]', 'Optional[IntList]', 'List[IntList]']),
+    ('List[int]', ['IntList'], ['StrList']),
+    ('List[str]', ['StrList'], ['IntList']),
+    ('Optional[IntList]', ['Optional[IntList]', 'Union[IntList, None]', 'Optional[List[int]]', 'Union[None, IntList]'],
+     ['Optional[StrList]', 'IntList']),
+    ('Table', ['Table', 'Dict[str, Optional[Alias]]', 'Dict[str, Optional[My]]', 'Dict[str, Union[None, Alias]]'],
+     ['Dict[str, Optional[Wrong]]', 'Dict[str, Alias]']),
+    ('Dict[str, Alias]', ['Dict[str, My]', 'Dict[str, Alias]'], ['Dict[str, Wrong]', 'Table']),
+    ('List[Alias]', ['List[Alias]', 'List[My]'], ['List[Wrong]', 'Alias']),
+    ('U', ['U'], ['T', 'Alias']),
+    ('List[U]', ['List[U]'], ['List[T]', 'U']),
+    ('T', ['T'], ['U']),
+    ('Callable[[Alias], IntList]', ['Callable[[Alias], IntList]', 'Callable[[My], List[int]]'], ['Callable[[Wrong], IntList]']),
+]
+
+
+def alias_cases(rng, tier):
+    """the module binds a class / a generic / a type variable under ANOTHER identifier than its `__name__` (`Alias = My`,
+    `IntList = List[int]`, `Table = Dict[str, Optional[My]]`, `U = TypeVar('T2')`, `Wrong = Other`): the annotation is the alias, the
+    spelled-out type, or contains the alias; the docstring documents it by the alias, by the `__name__` / spelled out, inside another
+    generic (consistent in the module's namespace) or by an alias of ANOTHER type (inconsistent) — as a parameter, as the return type
+    and next to a correctly documented neighbour, under every trigger path.  (Not generated: a type variable documented by a `__name__`
+    that is no identifier of the module — `U = TypeVar('T2')` documented `T2`.)"""
+    out = []
+    k = 0
+    for ann, good, bad in ALIAS_PAIRS:
+        for text, label in [(t, 'consistent:alias') for t in good] + [(t, 'alias-wrong') for t in bad]:
+            for deco in ('pedantic', 'require', 'require_kw', 'class', 'class_plain'):
+                k += 1
+                shapes = [
+                    ({'params': [('p0', ann)], 'ret': 'None'}, {'params': [('p0', text)], 'returns': None}),
+                    ({'params': [('p0', 'int')], 'ret': ann}, {'params': [('p0', 'int')], 'returns': ('typed', text)}),
+                    ({'params': [('p0', 'str'), ('p1', ann)], 'ret': ann},
+                     {'params': [('p0', 'str'), ('p1', text)], 'returns': ('typed', good[0])}),
+                ]
+                for j, (sig, idoc) in enumerate(shapes):
+                    if tier == 'quick' and j == 2 and k % 2:
+                        continue
+                    out.append(mk_case(deco, [(sig, idoc)], label + ('' if j != 1 else '-returns'), aliases=True,
+                                       apply=('call' if (k + j) % 5 == 0 else 'syntax')))
+    return out
+
+
+# ------------------------------------------------------------------------------------------------ every function a class holds
+
+def accessor_sigs(t, setter_ret='None', deleter_ret='None'):
+    """the signatures of the accessors of a property of type `t`"""
+    return {'fget': {'params': [], 'ret': t}, 'fset': {'params': [('value', t)], 'ret': setter_ret}, 'fdel': {'params': [], 'ret': deleter_ret}}
+
+
+PARTS = ('fget', 'fset', 'fdel')
+PART_DECO = {'fget': 'getter', 'fset': 'setter', 'fdel': 'deleter'}
+PART_FN = {'fget': '_get_', 'fset': '_set_', 'fdel': '_del_'}
+
+
+def mk_members_case(deco, members, edit, enabled=True, titles=('Args', 'Returns'), base=None, apply='syntax', role=None):
+    """a class given by ALL the functions it holds.  members (in the order of the class body):
+         {'kind': 'fn', 'role': 'method' | 'static' | 'classm', 'sig': sig (with 'name'), 'idoc': idoc}
+         {'kind': 'prop', 'name': n, 'syntax': 'deco' (`@property` / `@n.setter` / `@n.deleter`; without a getter the chain starts at
+            `n = property()`) | 'call' (`n = property(fget=_get_n, …)` of functions that are deleted from the class body afterwards) |
+            'call_keep' (the same without the `del`: the functions are methods of the class as well), 'parts': {part: (sig, idoc)}}
+       The units of the case are the functions in the order `for_all_methods` meets them, each with its `role`."""
+    assert deco in CLASS_DECO
+    defs, refs, body, xmembers = [], [], [], []          # defs: (sig, idoc); refs: (index into defs, role)
+
+    def add_def(name, sig, idoc, deco_line, first):
+        doctext = None if idoc is None else render_doc(idoc, *titles)
+        body.append(render_fn(name, sig, doctext, '    ', deco_line, first))
+        defs.append((sig, idoc))
+        return len(defs) - 1
+    for m in members:
+        if m['kind'] == 'fn':
+            r = m['role']
+            k = add_def(m['sig']['name'], m['sig'], m['idoc'], {'method': None, 'static': '@staticmethod', 'classm': '@classmethod'}[r],
+                        {'method': True, 'static': False, 'classm': 'cls'}[r])
+            refs.append((k, r))
+            xmembers.append([m['sig']['name'], 'fn'])
+            continue
+        n, parts = m['name'], [p for p in PARTS if p in m['parts']]
+        if m['syntax'] == 'deco':
+            if 'fget' not in parts:
+                body.append(f'    {n} = property()\n')
+            for p in parts:
+                sig, idoc = m['parts'][p]
+                refs.append((add_def(n, sig, idoc, '@property' if p == 'fget' else f'@{n}.{PART_DECO[p]}', True), p))
+        else:
+            ks = {p: add_def(PART_FN[p] + n, m['parts'][p][0], m['parts'][p][1], None, True) for p in parts}
+            body.append(f"    {n} = property({', '.join(f'{p}={PART_FN[p] + n}' for p in parts)})\n")
+            if m['syntax'] == 'call':
+                body.append(f"    del {', '.join(PART_FN[p] + n for p in parts)}\n")
+            else:
+                for p in parts:
+                    refs.append((ks[p], 'method'))
+                    xmembers.append([PART_FN[p] + n, 'fn'])
+            refs += [(ks[p], p) for p in parts]
+        xmembers.append([n, 'prop', parts])
+    src = HEAD_SRC + (BASES[base] if base else '') + (CLASS_DECO[deco] + '\n' if apply == 'syntax' else '') \
+        + f"class C{'(B)' if base else ''}:\n" + '\n'.join(body)
+    if apply == 'call':
+        src += '\nC = ' + DECO_CALL[deco].format('C') + '\n'
+    tree = ast.parse(src)
+    cdef = [x for x in tree.body if isinstance(x, ast.ClassDef) and x.name == 'C'][0]
+    fns = [x for x in cdef.body if isinstance(x, (ast.FunctionDef, ast.AsyncFunctionDef))]
+    assert len(fns) == len(defs)
+    udeco = {'class': 'class', 'class_plain': 'pedantic'}[deco]
+    aus = [abstract_unit(sig, idoc, ast.get_docstring(fn, clean=False), udeco) for (sig, idoc), fn in zip(defs, fns)]
+    c = {'env': {'enabled': enabled, 'parser': True}, 'kind': 'class', 'units': [dict(aus[k], role=r) for k, r in refs]}
+    if deco == 'class_plain':
+        c['classdeco'] = 'plain'
+    x = {'src': src, 'deco': deco, 'edit': edit, 'in_domain': True, 'members': xmembers}
+    if role:
+        x['role'] = role
+    if base:
+        x['base'] = base
+    if apply != 'syntax':
+        x['apply'] = apply
+    return {'m': 'docstring', 'c': c, 'x': x}
+
+
+PROP_TYPES = ['float', 'List[int]', 'Optional[int]', 'My', 'int', 'Dict[str, int]']
+SUBSETS = [s for n in (1, 2, 3) for s in itertools.combinations(PARTS, n)]
+M_OTHER = {'kind': 'fn', 'role': 'method', 'sig': {'name': 'other', 'params': [('count', 'int')], 'ret': 'int'},
+           'idoc': {'params': [('count', 'int')], 'returns': ('typed', 'int')}}
+M_SIGS = [
+    {'name': 'build', 'params': [('value', 'int'), ('label', 'str')], 'ret': 'My'},
+    {'name': 'reset', 'params': [], 'ret': 'None'},
+    {'name': 'collect', 'params': [('items', 'List[My]'), ('*args', 'int')], 'ret': 'Optional[int]'},
+]
+
+
+def member_cases(rng, tier):
+    """EVERY function a class holds is docstring-checked when the class is decorated: for every non-empty subset of {getter, setter,
+    deleter} of a property (7) x the way the property is written (`@property` / `@x.setter` / `@x.deleter`; `x = property(fget=…)`
+    of functions deleted from the class body afterwards; the same without the `del`) x every accessor of the subset: that accessor
+    carries the consistent docstring, every single edit of it, no docstring, an empty one, a summary only — the other accessors are
+    consistent —, under pedantic_class_require_docstring and pedantic_class, alone or next to a consistent method (before / after);
+    the same for static methods and class methods.  A few classes disabled, derived from a decorated base, decorated by a call."""
+    out = []
+    quick = tier == 'quick'
+    k = 0
+    for subset in SUBSETS:
+        for syntax in ('deco', 'call', 'call_keep'):
+            if syntax == 'call_keep' and quick and len(subset) != 3:
+                continue
+            for part in subset:
+                types_ = [PROP_TYPES[(k + j) % len(PROP_TYPES)] for j in range(1 if quick else 6)]
+                for t in types_:
+                    k += 1
+                    sigs = accessor_sigs(t, setter_ret=('None' if k % 4 else None), deleter_ret=('None' if k % 5 else None))
+                    cdocs = {p: consistent_doc(sigs[p], rng, canonical=(k % 2 == 0)) for p in subset}
+                    cdocs = {p: (d if d['params'] or d['returns'] else ' Summary. ') for p, d in cdocs.items()}
+                    cd = consistent_doc(sigs[part], rng, canonical=True)
+                    variants = [('consistent:members', cdocs[part])] \
+                        + edits_of(sigs[part], cd, rng, 1 if quick else 2, near=not quick, near_name_count=(1 if quick else 3)) \
+                        + [('missing-docstring', None), ('empty-docstring', ''), ('summary-only', ' Summary. ')]
+                    for v, (label, idoc) in enumerate(variants):
+                        if label == 'summary-only' and not (cd['params'] or cd['returns']):
+                            continue          # that IS the consistent docstring of `def x(self) -> None`
+                        parts = {p: (sigs[p], idoc if p == part else cdocs[p]) for p in subset}
+                        prop = {'kind': 'prop', 'name': 'level', 'syntax': syntax, 'parts': parts}
+                        for deco in ('class', 'class_plain'):
+                            members = [[prop], [prop, M_OTHER], [M_OTHER, prop]][(k + v) % 3]
+                            out.append(mk_members_case(deco, members, label, role=part))
+                    if k % 6 == 0:
+                        prop = {'kind': 'prop', 'name': 'level', 'syntax': syntax, 'parts': {p: (sigs[p], None if p == part else cdocs[p]) for p in subset}}
+                        out.append(mk_members_case('class', [prop], 'missing-docstring', enabled=False, role=part))
+                        out.append(mk_members_case('class', [M_OTHER, prop], 'missing-docstring', base='pedantic_class', role=part))
+                        out.append(mk_members_case('class', [prop, M_OTHER], 'missing-docstring', apply='call', role=part))
+    # two properties, static / class methods and methods side by side: everything consistent, and each member in turn without a docstring
+    t = 'float'
+    sigs = accessor_sigs(t)
+    full = {p: (sigs[p], consistent_doc(sigs[p], rng, canonical=True)) for p in PARTS}
+    full['fdel'] = (sigs['fdel'], ' Summary. ')
+    for role in ('static', 'classm', 'method'):
+        for sig in M_SIGS:
+            cd = consistent_doc(sig, rng, canonical=True)
+            cdoc = cd if cd['params'] or cd['returns'] else ' Summary. '
+            variants = [('consistent:members', cdoc)] + edits_of(sig, cd, rng, 1 if quick else 2, near=not quick, near_name_count=(1 if quick else 3)) \
+                + [('missing-docstring', None), ('empty-docstring', '')]
+            for v, (label, idoc) in enumerate(variants):
+                me = {'kind': 'fn', 'role': role, 'sig': sig, 'idoc': idoc}
+                prop = {'kind': 'prop', 'name': 'level', 'syntax': 'deco', 'parts': full}
+                for deco in ('class', 'class_plain'):
+                    members = [[me], [me, M_OTHER], [prop, me], [M_OTHER, me, prop]][v % 4]
+                    out.append(mk_members_case(deco, members, label, role=role))
+    return out
+
+
+# ------------------------------------------------------------------------------------------------ the same `def` executed again
+
+# (what the varying annotation is in the consistent execution, an equal spelling of it, a different type)
+SEQ_PARAM = [('int', 'int', 'str'), ('Optional[int]', 'Union[None, int]', 'int'), ('List[int]', 'List[int]', 'list[int]'), ('My', 'My', 'Other')]
+SEQ_RET = [('int', 'int', 'str'), ('Optional[My]', 'My | None', 'My'), ('int', 'int', 'None')]
+SEQ_ROUNDS = ['AB', 'BA', 'AE', 'AAB', 'ABA', 'EA', 'AA']
+SEQ_SHAPES = [('factory', 'pedantic'), ('factory', 'require'), ('factory', 'require_kw'), ('loop', 'pedantic'), ('loop', 'require'),
+              ('loop', 'require_kw'), ('reload', 'pedantic'), ('reload', 'require'), ('reload', 'require_kw'),
+              ('class-factory', 'class'), ('class-factory', 'class_plain')]
+
+
+def mk_seq_case(shape, deco, slot, triple, rounds, edit, enabled=True):
+    """ONE `def` whose annotation in `slot` ('param' / 'return') is a variable, executed len(rounds) times with the values rounds
+    names (A: the annotation the docstring documents, E: an equal one spelled differently, B: another type); the docstring — a
+    constant of the code object — is consistent with A."""
+    a, e, b = triple
+    vals = [{'A': a, 'E': e, 'B': b}[r] for r in rounds]
+    if slot == 'param':
+        sig_of = lambda v: {'params': [('p0', v), ('p1', 'str')], 'ret': 'None'}
+        idoc = {'params': [('p0', a), ('p1', 'str')], 'returns': None}
+        vsig = {'params': [('p0', 'tp'), ('p1', 'str')], 'ret': 'None'}
+    else:
+        sig_of = lambda v: {'params': [('p0', 'str')], 'ret': v}
+        idoc = {'params': [('p0', 'str')], 'returns': ('typed', a)}
+        vsig = {'params': [('p0', 'str')], 'ret': 'tp'}
+    doctext = render_doc(idoc)
+    n = len(vals)
+    if shape == 'factory':
+        src = HEAD_SRC + 'def make(tp):\n' + render_fn('f', vsig, doctext, '    ', DECO_SRC[deco], False) + '    return f\n\n' \
+            + ''.join(f'r{k} = make({v})\n' for k, v in enumerate(vals)) + f'PROBE = r{n - 1}\n'
+    elif shape == 'loop':
+        src = HEAD_SRC + f"for tp in [{', '.join(vals)}]:\n" + render_fn('f', vsig, doctext, '    ', DECO_SRC[deco], False) + 'PROBE = f\n'
+    elif shape == 'reload':        # run_impl reloads the module n - 1 times: the source is compiled again, the code objects are equal
+        src = HEAD_SRC + "_ROUND = globals().get('_ROUND', -1) + 1\n" + f"tp = [{', '.join(vals)}][_ROUND]\n" \
+            + render_fn('f', vsig, doctext, '', DECO_SRC[deco], False) + 'PROBE = f\n'
+    else:
+        assert shape == 'class-factory'
+        src = HEAD_SRC + 'def make(tp):\n    ' + CLASS_DECO[deco] + '\n    class C:\n' + render_fn('m0', vsig, doctext, '        ', None, True) \
+            + '    return C\n\n' + ''.join(f'r{k} = make({v})\n' for k, v in enumerate(vals)) + f"PROBE = r{n - 1}.__dict__['m0']\n"
+    fns = [x for x in ast.walk(ast.parse(src)) if isinstance(x, (ast.FunctionDef, ast.AsyncFunctionDef)) and x.name in ('f', 'm0')]
+    assert len(fns) == 1
+    doc = ast.get_docstring(fns[0], clean=False)
+    udeco = {'class': 'require', 'class_plain': 'pedantic'}.get(deco, deco)       # one method per class: the class decorators are these
+    c = {'env': {'enabled': enabled, 'parser': True}, 'kind': 'seq', 'units': [abstract_unit(sig_of(v), idoc, doc, udeco) for v in vals]}
+    x = {'src': src, 'deco': deco, 'edit': edit, 'in_domain': True, 'shape': shape, 'history': True}
+    if shape == 'reload':
+        x['reloads'] = n - 1
+    return {'m': 'docstring', 'c': c, 'x': x}
+
+
+def repeated_def_cases(rng, tier):
+    """the same `def` executed several times in one interpreter — an inner function of a factory, the body of a loop, a class defined in
+    a factory, a module that is reloaded — with an annotation that is a variable: every execution is a decoration of its own.  The
+    docstring fits the value A; the executions take the values AB / BA / AE / AAB / ABA / EA / AA (E: an equal annotation spelled
+    differently, B: another type) in a parameter or in the return annotation."""
+    out = []
+    slots = [('param', t) for t in SEQ_PARAM] + [('return', t) for t in SEQ_RET]
+    k = 0
+    for shape, deco in SEQ_SHAPES:
+        for rounds in SEQ_ROUNDS:
+            k += 1
+            chosen = slots if tier != 'quick' else [slots[(k + j * 3) % len(slots)] for j in range(2)]
+            for slot, triple in chosen:
+                label = 'repeated-def:first-annotation-differs' if rounds[0] == 'B' else \
+                    ('repeated-def:later-annotation-differs' if 'B' in rounds else 'consistent:repeated-def')
+                out.append(mk_seq_case(shape, deco, slot, triple, rounds, label))
+    out.append(mk_seq_case('factory', 'require', 'param', SEQ_PARAM[0], 'AB', 'repeated-def:later-annotation-differs', enabled=False))
+    return out
 
 
 def consistent_doc(sig, rng, canonical=False):
@@ -676,7 +1019,19 @@ def hierarchy_cases(rng, tier):
             for b, base in enumerate([None] + list(BASES)):
                 for deco in ('class', 'class_plain'):
                     units = [[(sig, idoc)], [(sig, idoc), other], [other, (sig, idoc)]][(k + b) % 3]
-                    out.append(mk_case(deco, units, label, base=base))
+                    # every second class is defined first and decorated by a call afterwards (it is then bound in its module)
+                    out.append(mk_case(deco, units, label, base=base, apply=('call' if (k + b) % 2 else 'syntax')))
+    # an overriding method WITHOUT a docstring (or with an empty one) does not borrow the docstring of the method it overrides: the
+    # class is defined first and decorated by a call (`C = pedantic_class_require_docstring(C)`), so that it can be found in its
+    # module under its qualified name; the overridden methods of the base are documented consistently with the same signature
+    over = [{'name': 'keep', 'params': [('v', 'int')], 'ret': 'int'}, {'name': '__init__', 'params': [('factor', 'int')], 'ret': 'None'}]
+    for sig in over:
+        for label, idoc in (('missing-docstring', None), ('empty-docstring', ''), ('consistent:hierarchy', consistent_doc(sig, rng, canonical=True))):
+            for b, base in enumerate(list(BASES)):
+                for deco in ('class', 'class_plain'):
+                    for apply in ('call', 'syntax'):
+                        units = [[(sig, idoc)], [(sig, idoc), other], [other, (sig, idoc)]][b % 3]
+                        out.append(mk_case(deco, units, label + ':override', base=base, apply=apply))
     return out
 
 
@@ -711,12 +1066,15 @@ def cases(rng, tier):
                     units = [(sig, idoc)]
                 out.append(mk_case('class', units, label, titles=titles))
             else:
-                out.append(mk_case(deco, [(sig, idoc)], label, titles=titles))
+                out.append(mk_case(deco, [(sig, idoc)], label, titles=titles, apply=('call' if k % 4 == 1 else 'syntax')))
         if k % 10 == 0:
             out.append(mk_case(deco, [(sig, cdoc)], 'consistent', enabled=False))
     out += near_name_cases()
     out += none_returning_cases()
     out += hierarchy_cases(rng, tier)
+    out += member_cases(rng, tier)
+    out += repeated_def_cases(rng, tier)
+    out += alias_cases(rng, tier)
     # (after the seeded part: a failure that depends on an earlier case is bisected over everything that ran before it)
     # every pool annotation in every equal spelling x every near miss that merely names it, as a parameter, as the Returns
     # entry, next to a correctly documented neighbour, and under every trigger path
@@ -741,41 +1099,98 @@ def search(rng, tier, near):
         cdoc = consistent_doc(sig, rng)
         for label, idoc in [('consistent', cdoc)] + edits_of(sig, cdoc, rng, 1):
             out.append(mk_case(deco, [(sig, idoc)], label))
-    return out + near_name_cases() + none_returning_cases() + hierarchy_cases(rng, tier)
+    return out + near_name_cases() + none_returning_cases() + hierarchy_cases(rng, tier) + member_cases(rng, tier) + repeated_def_cases(rng, tier) + alias_cases(rng, tier)
 
 
 # ------------------------------------------------------------------------------------------------ implementation side
 
-def run_impl(cases):
+def wrapped_status(cls, members):
+    """were the functions the class holds replaced by wrappers: all ('ok'), none ('original'), some ('partial')"""
+    flags = []
+    for m in members:
+        v = cls.__dict__[m[0]]
+        if m[1] == 'fn':
+            if isinstance(v, (staticmethod, classmethod)):
+                v = v.__func__
+            flags.append(hasattr(v, '__wrapped__'))
+        else:
+            for part in m[2]:
+                acc = getattr(v, part, None)
+                flags.append(acc is not None and hasattr(acc, '__wrapped__'))
+    return 'ok' if all(flags) else ('partial' if any(flags) else 'original')
+
+
+def run_chunk(cases, tag=''):
+    """one interpreter, the cases one after the other (whatever the library keeps between decorations stays)"""
     d = tempfile.mkdtemp(prefix='pedverif_c19_')
     out = []
     saved = os.environ.get('ENABLE_PEDANTIC')
+    sys.path.insert(0, d)              # importlib.reload finds a module again through sys.path
     try:
         for k, case in enumerate(cases):
-            path = os.path.join(d, f'c19_mod_{k}.py')
+            name = f'c19_mod_{tag}{k}'
+            path = os.path.join(d, name + '.py')
             with open(path, 'w') as f:
                 f.write(case['x']['src'])
             if case['c']['env']['enabled']:
                 os.environ.pop('ENABLE_PEDANTIC', None)
             else:
                 os.environ['ENABLE_PEDANTIC'] = '0'
-            spec = importlib.util.spec_from_file_location(f'c19_mod_{k}', path)
+            spec = importlib.util.spec_from_file_location(name, path)
             mod = importlib.util.module_from_spec(spec)
+            sys.modules[name] = mod        # as an import does: the module is registered while its body runs
             try:
                 spec.loader.exec_module(mod)
-                target = mod.C.__dict__[case['x'].get('probe', 'm0')] if case['c']['kind'] == 'class' else mod.f
-                res = 'ok' if hasattr(target, '__wrapped__') else 'original'
+                for _ in range(case['x'].get('reloads', 0)):
+                    importlib.reload(mod)
+                if case['c']['kind'] == 'seq':
+                    res = 'ok' if hasattr(mod.PROBE, '__wrapped__') else 'original'
+                elif case['c']['kind'] == 'class' and 'members' in case['x']:
+                    res = wrapped_status(mod.C, case['x']['members'])
+                else:
+                    target = mod.C.__dict__[case['x'].get('probe', 'm0')] if case['c']['kind'] == 'class' else mod.f
+                    res = 'ok' if hasattr(target, '__wrapped__') else 'original'
             except BaseException as e:
                 res = type(e).__name__
+            finally:
+                sys.modules.pop(name, None)
             out.append({'out': res})
             os.remove(path)
     finally:
+        if d in sys.path:
+            sys.path.remove(d)
         if saved is None:
             os.environ.pop('ENABLE_PEDANTIC', None)
         else:
             os.environ['ENABLE_PEDANTIC'] = saved
         shutil.rmtree(d, ignore_errors=True)
     return out
+
+
+_CHUNKS = None
+
+
+def _run_chunk_no(n):
+    return run_chunk(_CHUNKS[n], tag=f'{n}_')
+
+
+def run_impl(cases):
+    """a large run is split into a few contiguous chunks, each executed in a forked worker (every case is a module of its own; the cases
+    that are ABOUT state between decorations — kind `seq` — carry their whole history inside one module); small runs and replays
+    (a failing case with the cases that ran before it) stay in this process, in order"""
+    global _CHUNKS
+    workers = int(os.environ.get('VERIF_C19_WORKERS', '4'))
+    if len(cases) < 3000 or workers <= 1:
+        return run_chunk(cases)
+    import multiprocessing as mp
+    size = (len(cases) + workers - 1) // workers
+    _CHUNKS = [cases[i:i + size] for i in range(0, len(cases), size)]
+    try:
+        with mp.get_context('fork').Pool(len(_CHUNKS)) as pool:
+            parts = pool.map(_run_chunk_no, range(len(_CHUNKS)))
+    finally:
+        _CHUNKS = None
+    return [r for part in parts for r in part]
 
 
 def norm(o):
@@ -793,7 +1208,8 @@ INCONSISTENT = {'drop-param', 'rename-param', 'dup-param-adjacent', 'dup-param-r
                 'untyped-returns', 'typing-prefix-returns', 'unparsable-returns', 'ill-typed-returns', 'add-returns',
                 'add-untyped-returns', 'missing-docstring', 'empty-docstring',
                 'free-text-returns', 'empty-returns', 'blank-returns', 'add-free-text-returns', 'add-empty-returns', 'add-blank-returns',
-                'bare-origin', 'bare-origin-other-spelling', 'bare-origin-returns', 'bare-origin-other-spelling-returns'}
+                'bare-origin', 'bare-origin-other-spelling', 'bare-origin-returns', 'bare-origin-other-spelling-returns',
+                'alias-wrong', 'alias-wrong-returns'}
 
 
 def judge(case, impl, model):
@@ -823,9 +1239,11 @@ def judge(case, impl, model):
         if exp != got:
             if exp == 'ok' and got == 'original':
                 pfail = 'pedantic is enabled but the function came back undecorated: nothing was checked (consistent docstring)'
+            elif exp == 'ok' and got == 'partial':
+                pfail = 'pedantic is enabled but some function of the class came back undecorated: its docstring was never looked at'
             elif exp == 'ok':
                 pfail = f'the docstring is consistent with the signature but decoration raised {got}'
-            elif got in ('ok', 'original'):
+            elif got in ('ok', 'original', 'partial'):
                 pfail = 'an inconsistent / missing docstring was accepted although docstring checking applies'
             else:
                 pfail = f'the inconsistent docstring was rejected with {got} instead of PedanticDocstringException'
@@ -837,7 +1255,9 @@ def judge(case, impl, model):
         # written is consistent, and the library rejects what the parser handed it with PedanticDocstringException
         if not model['parser_faithful'] and model['spec']['consistent'] and got == 'PedanticDocstringException':
             finding = F_PARSER
-    tag = f"{case['x']['deco']}{'<' + case['x']['base'] if case['x'].get('base') else ''}/{case['x']['edit'].split('@')[0]}/{got}"
+    xx = case['x']
+    tag = (f"{xx['deco']}{'<' + xx['base'] if xx.get('base') else ''}{'(call)' if xx.get('apply') == 'call' else ''}"
+           f"{':' + xx['role'] if xx.get('role') else ''}{':' + xx['shape'] if xx.get('shape') else ''}/{xx['edit'].split('@')[0]}/{got}")
     return {'corr': corr, 'pfail': pfail, 'finding': finding, 'nontrivial': bool(model['spec']['applies']) and enabled,
             'tag': tag, 'why': '; '.join(why)}
 
